@@ -689,3 +689,4 @@ def check(prog, rep, tier, cfg):
     check_e(prog, rep)
     check_f(prog, rep)
     panic.check_g(prog, rep)
+    panic.check_h(prog, rep)
